@@ -1117,6 +1117,29 @@ pub mod verif {
         image.try_take_blended()
     }
 
+    /// Region padding arithmetic of `util` (crate-private) for the harness crate.
+    pub mod region_fns {
+        use crate::Region;
+        use jxl_frame::{Frame, FrameHeader};
+        use jxl_image::ImageHeader;
+
+        pub fn image_region_to_frame(frame: &Frame, image_region: Region, ignore_lf_level: bool) -> Region {
+            crate::util::image_region_to_frame(frame, image_region, ignore_lf_level)
+        }
+        pub fn pad_lf_region(frame_header: &FrameHeader, frame_region: Region) -> Region {
+            crate::util::pad_lf_region(frame_header, frame_region)
+        }
+        pub fn pad_upsampling(image_header: &ImageHeader, frame_header: &FrameHeader, frame_region: Region) -> Region {
+            crate::util::pad_upsampling(image_header, frame_header, frame_region)
+        }
+        pub fn pad_color_region(image_header: &ImageHeader, frame_header: &FrameHeader, frame_region: Region) -> Region {
+            crate::util::pad_color_region(image_header, frame_header, frame_region)
+        }
+        pub fn container_aligned(region: Region, grid_dim: u32) -> Region {
+            region.container_aligned(grid_dim)
+        }
+    }
+
     /// Outcome of the stand-ins below, chosen by the harness:
     /// 0 = Ok(false) / Ok(()), 1 = Ok(true), 2 = Err.
     pub static PREPROCESS_OUTCOME: AtomicU8 = AtomicU8::new(0);
